@@ -89,7 +89,7 @@ class C03(Prop):
     thorough_runs = 60000
     chunk = 8
     rule = ('one case = one generated world in the common feature set (reservoirs, cylindrical and curve tanks, H-W pipes, CV pipes, 1/3-point head pumps, power pumps, '
-            'PRV/PSV/FCV/TCV, patterns, time / clock-time / tank-level / pressure controls, time and level rules, DD; report step on the hydraulic grid; EPANET '
+            'PRV/PSV/FCV/TCV, patterns, time / clock-time / tank-level / pressure controls, time and level rules, DD and PDD with global parameters; report step on the hydraulic grid; EPANET '
             'accuracy 1e-7) run by the WNTRSimulator once and by EPANET 2.2 on the INP file written in 3 seeded (thorough: all 10) flow-unit systems, plus once on '
             'the file re-read by the INP reader. (a) the EPANET runs must agree with each other across unit systems; (b) on healthy worlds WNTR and EPANET must '
             'agree at every report step, status timelines included; (c) the model re-read from the file must give, through EPANET, the results of the file itself. '
@@ -102,11 +102,13 @@ class C03(Prop):
 
     def make(self, rng, tier):
         hyd = rng.pick([900, 1800, 3600, 3600, 7200])
-        cfg = dict(hyd_steps=[hyd], steps=(4, 16), n_tanks=[(0, 3), (1, 5), (2, 1)], p_pdd=0.0, p_clock=0.3, nj=(2, 7), p_loop=0.5,
+        cfg = dict(hyd_steps=[hyd], steps=(4, 16), n_tanks=[(0, 3), (1, 5), (2, 1)], p_pdd=0.3, p_clock=0.3, nj=(2, 7), p_loop=0.5,
                    n_valves=[(0, 5), (1, 3)], p_dur_off=0.0, p_pump_source=0.3, p_cv=0.15, pump_points=[(1, 3), (3, 3)], p_report_all=0.0, p_report_mult=0.0,
                    p_pattern_start=0.25, p_multiplier=0.3, p_res2=0.15)
         scn = gen.gen_world(rng, cfg)
         scn['profile'] = 'c03'
+        for n_ in scn['nodes']:
+            n_.pop('pdd', None)      # per-junction PDD parameters are WNTR-only (the INP format has global ones)
         o = scn['options']
         o['pattern_step'] = int(hyd * rng.pick([1, 1, 2]))
         if o.get('pattern_start'):
@@ -114,6 +116,8 @@ class C03(Prop):
         divs = [d for d in (1, 2, 3, 4, 6) if hyd % d == 0 and hyd // d >= 60]
         o['rule_step'] = hyd // rng.pick(divs)
         o['accuracy'] = 1e-7
+        o['headerror'] = 1e-5      # EPANET 2.2 convergence criteria on head error (m) and flow change (m3/s): with the relative-flow
+        o['flowchange'] = 1e-7     # criterion alone its PDA solutions differ by decimetres between runs of one model (world 3607)
         scn['run']['solver_options'] = {'MAXITER': 500}
         scn['run']['hw_approx'] = 'default'
         kinds = rng.pick([[], ['time'], ['level'], ['time', 'level'], ['rule'], ['time', 'rule']])
@@ -269,6 +273,7 @@ class C03(Prop):
             nrows_ok = min(nrows_ok, len([t for t in times if t < t_ev]))
         bump(c, 'c03.rows_comparable', nrows_ok)
         bump(c, 'c03.rows_total', len(times))
+        pdd = scn['options'].get('demand_model') == 'PDD'
         # ---------------- (a) unit independence, EPANET vs EPANET
         others = [(u, ep[u]) for u in scn['units'][1:]]
         if rr is not None:
@@ -305,6 +310,12 @@ class C03(Prop):
                 a = np.asarray(tab(res, grp, key)[cols].values, dtype=float)[rows_ok]
                 b = np.asarray(tab(ref, grp, key)[cols].values, dtype=float)[rows_ok]
                 bad = np.where(np.abs(a - b) > atol)
+                if len(bad[0]) and pdd and len(set(int(i_) for i_ in bad[0])) < max(2, 0.3 * len(rows_ok)):
+                    # EPANET's pressure-driven solutions of ONE model differ by decimetres at isolated steps between two runs (world 3607
+                    # of seed 20260928, with tight HEADERROR/FLOWCHANGE too): in PDD worlds a difference counts when it shows at
+                    # >= 30 % of the comparable rows (a wrong unit factor shows at every row in the pressure-dependent range)
+                    bump(c, lab + '.pdd_isolated_row_differences')
+                    bad = (np.array([], dtype=int), np.array([], dtype=int))
                 if len(bad[0]):
                     i, j = int(bad[0][0]), int(bad[1][0])
                     viol.append(V(lab + '.' + key, 'differs', '%s vs %s: %s[%s] at t=%d: %.9g vs %.9g (bound %.3g, %d cells)' %
@@ -379,6 +390,9 @@ class C03(Prop):
                 a = A_[ok_rows]
                 b = B_[ok_rows]
                 bad = np.where(np.abs(a - b) > atol + 1e-3 * np.abs(b))
+                if len(bad[0]) and pdd and len(set(int(i_) for i_ in bad[0])) < max(2, 0.3 * len(ok_rows)):
+                    bump(c, 'c03.engines.pdd_isolated_row_differences')
+                    bad = (np.array([], dtype=int), np.array([], dtype=int))
                 if len(bad[0]):
                     i, j = int(bad[0][0]), int(bad[1][0])
                     viol.append(V('c03.engines.' + key, 'differs', 'WNTR vs EPANET: %s[%s] at t=%d: %.9g vs %.9g (bound %.3g, %d cells)' %
